@@ -72,6 +72,7 @@ wire_part() {
 check_C03() {
   build_proxy
   wire_part wire route
+  wire_part conc concurrent
 }
 
 check_C13() {
@@ -100,6 +101,7 @@ check_C06() {
 check_C01() {
   build_proxy
   wire_part wire relay
+  wire_part conc concurrent
 }
 
 check_C12() {
